@@ -297,7 +297,7 @@ func noBypass(x *Ctx) {
 				}
 			}
 		}
-		x.C.Obl("C06.R3", "tokenFromModel-callers:"+pk, x.pos(tfm), "tokenFromModel is only called on the dereferenced, error-checked result of envelope.From*", bad == "" && n >= 2, bad)
+		x.C.Obl("C06.R3", "tokenFromModel-callers:"+pk, x.pos(tfm), "tokenFromModel is only called on the dereferenced, error-checked result of envelope.From*", bad == "" && n >= 1, bad)
 		// who may construct
 		tokT := load.Module + "/" + pk + ".Token"
 		var sites []string
@@ -328,23 +328,18 @@ type callSite struct {
 // callSitesOf returns one entry per (path, call) of f calling g.
 func (x *Ctx) callSitesOf(f, g *ssa.Function) []callSite {
 	var out []callSite
-	calls := false
-	for _, b := range f.Blocks {
-		for _, in := range b.Instrs {
-			if c, ok := in.(ssa.CallInstruction); ok && paths.StaticCallee(c) == g {
-				calls = true
-			}
-		}
+	if paths.Inlineable != nil && paths.Inlineable(f) && !paths.TrivialWrapper(f) {
+		return nil // a helper that is spliced into its callers: its call sites are seen on their paths
 	}
-	if !calls {
-		return nil
-	}
-	seen := map[ssa.Instruction]bool{}
+	seen := map[string]bool{}
 	for _, p := range x.pathsQuiet(f) {
 		for _, c := range p.Calls() {
-			if paths.StaticCallee(c) == g && !seen[c] {
-				seen[c] = true
+			if paths.StaticCallee(c) == g {
 				ct := p.Term(c)
+				if seen[x.P.Pos(c.Pos())+ct.String()] {
+					continue
+				}
+				seen[x.P.Pos(c.Pos())+ct.String()] = true
 				var a0 *paths.Term
 				if len(ct.Args) > 0 {
 					a0 = ct.Args[0]
